@@ -27,7 +27,9 @@ def main(prop="C07", want_exactness=True, with_language=False):
     random.Random(seed()).shuffle(files)
     tasks, skipped = [], []
     for k in ks:
-        for a in GL.generate(files, k=k, want_parser=True):
+        # generated grammar families run at the default limit (and at 2); the other limits on the fixed corpus
+        files_k = files if k in (5, 2) else [f for f in files if "/gen/gram/" not in f]
+        for a in GL.generate(files_k, k=k, want_parser=True):
             if a["rc"] != 0 or not a.get("parser"):
                 skipped.append({"grammar": a["grammar"], "k": k, "why": ("rejected by parol (rc=%s)" % a["rc"])})
                 continue
